@@ -83,6 +83,10 @@ def attribute(prop, scen, rej):
                 out.add('C01')
         elif g == 'pend':
             out |= {fam, 'C11'} if fam in ('C02', 'C07') else {fam}
+        elif g == 'robust':
+            out |= GROUP_PROPS['robust']
+            if fam == 'C11':
+                out.add('C11')   # a server that has stopped reading its connection without an excuse: the connection is wedged
         elif g == 'md':
             out.add('C04')
             if fam == 'C05':
